@@ -511,7 +511,8 @@ class MassBins:
                 raise ValueError(mssg)
 
             # arbitrarily small width around 1.4
-            bins_NS = mbin(*(np.array(ifmr.NS_mf) + [-0.01, 0.01]))
+            bins_NS = mbin(*(np.array(ifmr.NS_mf)[:, np.newaxis]
+                             + [[-0.01], [0.01]]))
 
         # Divide out the bins as if they were cut out from the MS bins
         else:
